@@ -81,7 +81,7 @@ func DrawKnobs(r *Rng) Knobs {
 var (
 	varNames   = []string{"a", "b", "c", "d", "x1", "y_2", "user.age", "is_ok", "_t", "Ünï", "v", "w.z", "locale", "n0", "fi", "variable", "operator", "DNE", "T", "nil", "True", "FALSE", "prix_à", "х", "你"}
 	constNames = []string{"K0", "K1", "IOS", "Good", "k_2", "Const.X", "Größe", "格"}
-	opNames    = []string{"f0", "f1", "g2", "h3", "calc.it", "is_child", "fi", "AND", "Or", "Not", "IN", "größe", "検査"}
+	opNames    = []string{"f0", "f1", "g2", "h3", "calc.it", "is_child", "fi", "AND", "Or", "Not", "IN", "größe", "検査", "F0", "calc_it", "calcit"}
 	intPool    = []int64{0, 1, -1, 2, 3, 5, 7, 10, 18, 100, -100, 9999, 10000, math.MaxInt64, math.MinInt64, 4000, 127, 128, 255, 256, 32767, 32768, -32768, math.MaxInt32, math.MinInt32}
 	strPlain   = []string{"", "a", "b", "fi", "if", "DNE", "true", "nil", "and", "en-US", "zh", "Male", "1.2.3", "2.3", "10.0.1", "2021-01-01", "2021-01-01 11:58:56", "2020-02-29", "hello", "你好"}
 	strWeird   = []string{"a b", "(x)", ";;c", "tab\there", "line\nbreak", "back\\slash", "x;y", " lead", "👋~ 👶", "[1,2]", "1.2.x", "1.10000", "2021-13-01", "2021-02-30", "99999.1", "1.2.3.4", "2.3.4.beta", "1.2.3.20240115", "2.3.4.", "7.8.x.1", "cr\r\nlf", "\r"}
@@ -614,6 +614,19 @@ func (g *Gen) ifExpr(t Ty, d int) *Node {
 	c := g.Expr(TBool, d)
 	if g.R.P(g.K.PIllCond) {
 		c = g.Expr(g.otherType(TBool), d)
+	}
+	if g.R.P(0.06) {
+		// both branches the same expression: still an `if` (its condition is
+		// evaluated, and may fail)
+		x := g.Expr(t, d)
+		return If(c, x, x.Clone())
+	}
+	if g.R.P(0.05) && g.R.P(1-g.K.PIllCond) {
+		// a condition that is a literal or a constant
+		c = g.litOf(TBool)
+		if len(g.cb[TBool]) > 0 && g.R.P(0.5) {
+			c = Const(g.cb[TBool][g.R.Intn(len(g.cb[TBool]))])
+		}
 	}
 	return If(c, g.Expr(t, d), g.Expr(t, d))
 }
